@@ -49,7 +49,12 @@ TAG_ONLY_ILL = ['amount // 10', 'amount ** 2', 'amount | 1', 'amount & 1', 'amou
                 'amount is None', 'amount is not None', 'lambda: 1', '{1: 2}', '{1}', "f'{amount}'", '*rows', 'rows[0:1]',
                 'amount @ 1', '(1, 2)', '...', "b'x'", '1j', 'amount +', ')(', 'a b', '1 +* 2', 'import os', 'x = 1', '',
                 ' ', '"unterminated', 'description.', '.upper()', 'field..memo', 'amount >', 'not', '[r for r in]',
-                '__import__("os")', 'amount if', 'a.b.c.d.e', '0x', '1e999', '1_0', 'rows[', '{{amount}}']
+                '__import__("os")', 'amount if', 'a.b.c.d.e', '0x', '1e999', '1_0', 'rows[', '{{amount}}',
+                # lexical errors next to words a pre-processor might look for (SQL-style keywords, quotes, comments, continuations)
+                'extract("BED BATH AND BEYOND (\\d+)"', 'contains("A") AND contains("B"', 'amount > 1 OR (', 'NOT (amount', 'x IN [1, 2',
+                '"AND', "'OR", 'amount AND', 'AND', 'amount > 1 # comment (', 'amount \\', '(amount', 'amount)', '[amount', 'amount]',
+                '"a" "b', 'contains("x"))', '((((((((((1', 'amount > 1;', 'amount\t>\t(', '\x00', '\ufeffamount', 'amount >> ', '1 if', 'else 1',
+                'AND OR NOT IN', 'a AND b OR c NOT d IN (', 'IS NULL', 'amount BETWEEN 1 AND (', 'LIKE "%x"', "description LIKE 'A%' AND ("]
 GOOD_VALUE = ['extract("#(\\\\d+)")', 'source', 'uppercase(source)', 'split(description, " ", 0)', '"static"', 'field.memo']
 DESCS = ['NETFLIX.COM #1234', 'UBER EATS 7781', 'AMZN MKTP US', 'COFFEE SHOP - SEATTLE', 'WHOLE FOODS #22', 'LYFT RIDE', 'HULU']
 
@@ -168,6 +173,15 @@ def oracle(case, r):
                     bad.append(('C08/rule-with-evaluable-condition-skipped-or-wrong-winner',
                                 {'txn': it['txn'], 'expected_rule': want, 'got_rule': f['ok'].get('rule'),
                                  'rules_whose_condition_is_true': it['indep_matching']}))
+            exp = case.get('expect')
+            if exp and (f['ok'].get('rule') != exp.get('rule', f['ok'].get('rule')) or
+                        not set(exp.get('tags', [])) <= set(f['ok'].get('tags', []))):
+                bad.append(('C08/failing-rule-changes-what-a-later-rule-does', {'txn': it['txn'], 'mode': it['mode'], 'expected': exp, 'got': f['ok']}))
+            fr = it.get('fresh_reduced')
+            if fr is not None and 'ok' in fr and fr['ok'] != f['ok']:
+                bad.append(('C08/failing-rule-influences-result-fresh-process',
+                            {'txn': it['txn'], 'mode': it['mode'], 'failing_rules': it['failing']['ok'], 'with': f['ok'],
+                             'without_in_a_process_that_never_evaluated_them': fr['ok']}))
             red = it.get('reduced')
             if red is None:
                 continue
@@ -204,9 +218,43 @@ def oracle(case, r):
     return bad
 
 
+def evaluate_cases(cases, workers=4, chunk=150):
+    """Pass A: every case in (chunked) implementation processes. Pass B: for engine cases in which some rule failed, the file
+    without those rules in OTHER processes that never evaluate the failing rules (a failing evaluation that damages shared
+    state - a cache entry, a class attribute - cannot hide there)."""
+    from concurrent.futures import ThreadPoolExecutor
+    results = []
+    chunks = [cases[i:i + chunk] for i in range(0, len(cases), chunk)]
+    with ThreadPoolExecutor(max_workers=workers) as ex:
+        for out in ex.map(lambda ch: run_impl(IMPL, {'cases': ch}, timeout=1800)['results'], chunks):
+            results += out
+    second, where = [], []
+    for ci, (c, r) in enumerate(zip(cases, results)):
+        if c['kind'] != 'engine' or 'items' not in r:
+            continue
+        red = []
+        for ii, it in enumerate(r['items']):
+            if it.get('failing', {}).get('ok'):
+                red.append((ii, [it['mode'], c['txns'].index(it['txn']), it['failing']['ok']]))
+        if red:
+            second.append(dict(c, kind='engine_reduced', reduce=[x for _, x in red]))
+            where.append((ci, [ii for ii, _ in red]))
+    chunks = [second[i:i + chunk] for i in range(0, len(second), chunk)]
+    res2 = []
+    with ThreadPoolExecutor(max_workers=workers) as ex:
+        for out in ex.map(lambda ch: run_impl(IMPL, {'cases': ch}, timeout=1800)['results'], chunks):
+            res2 += out
+    for (ci, iis), r2 in zip(where, res2):
+        if 'fresh_reduced' not in r2:
+            continue
+        for ii, fr in zip(iis, r2['fresh_reduced']):
+            results[ci]['items'][ii]['fresh_reduced'] = fr
+    return results
+
+
 def shrink_engine(case, sig):
     def fails(c):
-        r = run_impl(IMPL, {'cases': [c]})['results'][0]
+        r = evaluate_cases([c], workers=1)[0]
         return any(s == sig for s, _ in oracle(c, r))
     cur = json.loads(json.dumps(case))
     changed = True
@@ -284,6 +332,30 @@ def main(tier):
                                     {'name': 'Late', 'match': 'true', 'tags': ['late']}],
                           'txns': [{'description': 'NETFLIX.COM #1234', 'amount': -15.99, 'date': '2025-02-28', 'source': 'Amex', 'field': None},
                                    {'description': 'NETFLIX.COM #1234', 'amount': 20.0, 'date': None, 'source': 'Amex', 'field': {'memo': 'm'}}]})
+    # an ill-typed call and a well-typed call sharing the same literal (a failure must not be remembered for the literal)
+    shared = [('regex(amount, "NETFLIX")', 'regex("NETFLIX")'), ('regex(rows, "\\.COM")', 'regex("\\.COM")'),
+              ('regex(description, 5)', 'regex("5|NETFLIX")'), ('extract(amount, "#(\\d+)") == "1"', 'extract("#(\\d+)") == "1234"'),
+              ('regex_replace(amount, "NETFLIX", "") == ""', 'regex_replace(description, "NETFLIX", "") == ".COM #1234"'),
+              ('contains(amount, "NETFLIX")', 'contains("NETFLIX")'), ('normalized(amount, "NETFLIX")', 'normalized("NETFLIX")'),
+              ('startswith(amount, "NETFLIX")', 'startswith("NETFLIX")'), ('fuzzy(amount, "NETFLIX")', 'fuzzy("NETFLIX")'),
+              ('anyof(amount, "NETFLIX")', 'anyof("NETFLIX", "HULU")'), ('split(amount, " ", 0) == "x"', 'split(description, " ", 0) == "NETFLIX.COM"'),
+              ('regex("NETFLIX(")', 'regex("NETFLIX")'), ('uppercase(amount) == "X"', 'uppercase(description) == "NETFLIX.COM #1234"'),
+              ('date > "NETFLIX"', 'contains("NETFLIX")'), ('field.memo == "NETFLIX"', 'contains("NETFLIX")')]
+    for ill, good in shared:
+        for where in ('match', 'let', 'tag', 'field'):
+            bad_rule = {'name': 'Bad', 'match': ill, 'category': 'X', 'tags': ['bad']} if where == 'match' else \
+                {'name': 'Bad', 'match': 'amount > 99999', 'category': 'X', 'lets': [('w', ill)] if where == 'let' else [],
+                 'tags': ['{' + ill + '}'] if where == 'tag' else [], 'fields': [('f', ill)] if where == 'field' else []}
+            if where != 'match':
+                bad_rule['match'] = 'amount != 0'
+                bad_rule.pop('category')
+                bad_rule['tags'] = bad_rule['tags'] + ['seen']
+            cases.append({'kind': 'engine', 'modes': ['first_match', 'most_specific'], 'variables': [], 'transforms': [],
+                          'data_sources': {'rows': [{'item': 'Book', 'amount': 12.5}], 'empty': []},
+                          'rules': [bad_rule, {'name': 'Good', 'match': good, 'category': 'Subs', 'subcategory': 'Stream', 'tags': ['ok']}],
+                          'expect': {'rule': 'Good', 'tags': ['ok']},
+                          'txns': [{'description': 'NETFLIX.COM #1234', 'amount': -15.99, 'date': '2025-02-28', 'source': 'Amex', 'field': None},
+                                   {'description': 'NETFLIX.COM #1234', 'amount': 15.99, 'date': None, 'source': 'Amex', 'field': None}]})
     for nm, reader in [('amount', 'amount > 100'), ('big', 'big'), ('seen', 'seen == 1 or contains("COFFEE")')]:
         for tail in ['contains(5)', 'amount > "x"', 'field.nope == 1']:
             for with_var in (True, False):
@@ -330,13 +402,7 @@ def main(tier):
         c['all_failing'] = [i for i, r in enumerate(c['rules']) if r['match'] in ILL and r['match'] not in
                             ('field.nope == "a"',)]
         cases.append(c)
-    results = []
-    CH = 150
-    from concurrent.futures import ThreadPoolExecutor
-    chunks = [cases[i:i + CH] for i in range(0, len(cases), CH)]
-    with ThreadPoolExecutor(max_workers=4) as ex:
-        for out in ex.map(lambda ch: run_impl(IMPL, {'cases': ch}, timeout=1800)['results'], chunks):
-            results += out
+    results = evaluate_cases(cases)
     import shutil
     shutil.rmtree(wd, ignore_errors=True)
 
@@ -391,7 +457,7 @@ def replay(path):
     if c['kind'] == 'rows':
         c['workdir'] = os.path.join(WORK, 'C08rows')
         os.makedirs(c['workdir'], exist_ok=True)
-    r = run_impl(IMPL, {'cases': [c]})['results'][0]
+    r = evaluate_cases([c], workers=1)[0]
     bad = oracle(c, r)
     print(json.dumps({'oracle': bad}, indent=1, default=str)[:3000])
     if bad:
